@@ -203,7 +203,7 @@ theorem writeMem_tail (env : Env) (sX : St) (h : Pd (badChecked b) .save sX) (ha
     Jv (badChecked b) (exec (
       .ite (.flag .okMark) "strings.Contains($IssueCmd, \"[OK]\")" (.ret .none []) .skip ;;
       .ite (.flag .openFailed) "strings.Contains($IssueCmd, \"startup-config file open failed\")"
-        (.ite .ctrPos "$const > 0" (.decCtr ;; .cont) .skip ;;
+        (.ite .ctrPos "$v > 0" (.decCtr ;; .cont) .skip ;;
          .abort ["write mem: startup-config open failed - giving up"]) .skip ;;
       .abort ["write mem: unexpected result: %s", "_"]) env sX) := by
   have hm1 := h.mode
@@ -228,7 +228,7 @@ theorem presV_iosWriteMemRound :
         (GetCmdOutput .save (.lit "") [""]) .skip ;;
       .ite (.flag .okMark) "strings.Contains($IssueCmd, \"[OK]\")" (.ret .none []) .skip ;;
       .ite (.flag .openFailed) "strings.Contains($IssueCmd, \"startup-config file open failed\")"
-        (.ite .ctrPos "$const > 0" (.decCtr ;; .cont) .skip ;;
+        (.ite .ctrPos "$v > 0" (.decCtr ;; .cont) .skip ;;
          .abort ["write mem: startup-config open failed - giving up"]) .skip ;;
       .abort ["write mem: unexpected result: %s", "_"]) := by
   intro env s hj hm
